@@ -22,6 +22,7 @@
 #include <util/time.h>
 
 #include <filesystem>
+#include <sys/resource.h>
 #include <sys/wait.h>
 
 using namespace ck;
@@ -442,7 +443,11 @@ static void group_main(const Group& g, int64_t max_pool_bytes, int maxlen, const
         }
     };
     rec();
-    if (getenv("C29_TIMING")) fprintf(stderr, "[C29 timing] group %s/%d %llu cases done at %.2fs\n", STNAME[g.state], g.profile, (unsigned long long)ncases, vx::elapsed() - t_a);
+    if (getenv("C29_TIMING")) {
+        struct rusage ru; getrusage(RUSAGE_CHILDREN, &ru);
+        fprintf(stderr, "[C29 timing] group %s/%d %llu cases done at %.2fs; children cpu user %.2fs sys %.2fs\n", STNAME[g.state], g.profile, (unsigned long long)ncases, vx::elapsed() - t_a,
+                ru.ru_utime.tv_sec + ru.ru_utime.tv_usec / 1e6, ru.ru_stime.tv_sec + ru.ru_stime.tv_usec / 1e6);
+    }
     for (auto& s : sigs) fprintf(f, "G\t%s\n", s.c_str());
     fprintf(f, "S\t%" PRIu64 "\t%" PRIu64 "\t%d\n", ncases, nviol, incomplete ? 1 : 0);
     fclose(f);
